@@ -13,14 +13,25 @@ LEVEL_TEXT = ("Partial. Lean theorems over a hand model of get_pred/clear_data a
               "with zeta_j, zeta bounds of |G''| on the j-th grid interval / on the hull and h = max((lo-1)/9, 1/25) a PROVED bound of the "
               "steps of the grid built from the shipped constants (Mathlib trapezoidal_error_le_of_c2 on every grid interval, summed); "
               "|delta mu| <= 5 E / (ln 10 min(dL, integral)); mu_i = 5 log10(zp1_i dL_i) + 5 log10(c/H0/10pc); after clear_data the next "
-              "call rebuilds grid and mask from its own argument. NOT proved: floating-point rounding, and the correctness of "
-              "sympy.integrate on the analytic path (conformance-tested on the real code against the numerical path and scipy.integrate.quad).")
+              "call rebuilds grid and mask from its own argument. Analytic path (Props/C19c): with P the lambdified expression run_sympify returns and "
+              "the NAMED hypothesis AntiderivativeContract G P b (P' = G = 1/sqrt(H^2) on [1, b]; the contract of sympy.integrate, third party) "
+              "the regenerated branch dL = P(zp1) - P(1) equals the defining integral (Mathlib FTC-2), mu_i = 5 log10(zp1_i int_1^{zp1_i} G) + const, "
+              "and it agrees with the numerical path within zeta h^2 (zp1_i - 1)/12 (analytic_path_agrees_with_numeric_partial); the hypothesis is "
+              "needed: P' = -G gives minus the integral, a negative dL (posified_antiderivative_negates: log x / a for H^2 = (a x)^2, a < 0). "
+              "run_sympify's call sympy.integrate(1/sqrt(eq), x) is regenerated fail-closed (result must reach the returned eq unprocessed). "
+              "NOT proved: floating-point rounding, and the contract itself - it is CHECKED on every run on the real antiderivative expressions "
+              "(sympy.diff and central differences vs 1/sqrt(H^2), parameter values of both signs), next to the analytic path vs the numerical "
+              "path and scipy.integrate.quad.")
 TECHNIQUE = ("Lean 4 proof on a hand model of the grid/mask/cumulative-trapezoid/cache logic + formulas regenerated from source; "
              "Mathlib trapezoid error bound summed over the non-uniform grid; model-code correspondence on random redshift samples; "
-             "independent quad oracle that checks the real get_pred against exactly the three bounds of the theorems on the real data_x")
+             "independent quad oracle that checks the real get_pred against exactly the three bounds of the theorems on the real data_x; "
+             "analytic branch: Mathlib FTC-2 from a named derivative hypothesis + run-time check of that hypothesis on the antiderivatives the real "
+             "run_sympify returns, over families whose parameters enter through even powers / absolute values / products / quotients at both signs")
 RULE = ("one evaluation = one get_pred call on the real code compared with the model (correspondence) or with scipy.integrate.quad (oracle); "
         "distinct = (function string, parameter vector, sample) ; non-trivial = sample with >= 2 distinct redshifts; samples of 1-200 points, "
-        "sorted / reversed / shuffled, with duplicates and values coinciding with auxiliary grid points")
+        "sorted / reversed / shuffled, with duplicates and values coinciding with auxiliary grid points; one antiderivative-contract evaluation = "
+        "one (function, parameter vector) with the derivative compared at 16 points of [1, 3.4]; signed families at every sign pattern of their "
+        "parameters, magnitudes 10^U(-1, 3.7)")
 EXPLANATION = LEVEL_TEXT
 TRUSTED = ["hand model ESRVerif/Model/Panth.lean of get_pred/clear_data (tied by correspondence: grid bits, mask, mu)",
            "harness/extractors/panth.py (formulas, constants, unit algebra for mu_const)",
@@ -28,7 +39,10 @@ TRUSTED = ["hand model ESRVerif/Model/Panth.lean of get_pred/clear_data (tied by
            "scipy.integrate.quad as the reference integral",
            "zeta_j: |G''| (closed form from hand-written H^2, H^2', H^2'', cross-checked against sympy's second derivative of the "
            "expression the real run_sympify returns) maximised on 9 points per grid interval (end points included) times 1.05",
-           "pointwise evaluation of the lambdified H^2 (eq_numpy)"]
+           "pointwise evaluation of the lambdified H^2 (eq_numpy)",
+           "sympy.integrate (third party): its contract is the hypothesis AntiderivativeContract of Props/C19c.lean, checked at run time with "
+           "sympy.diff + numpy evaluation and with central differences of the lambdified antiderivative against the hand-written 1/sqrt(H^2)",
+           "hand-written H^2, H^2', H^2'' of the signed families (cross-checked against sympy's second derivative of the sympified string)"]
 ASSUMPTIONS = ["1+z >= 1 and NaN-free finite redshifts", "H^2 positive, twice continuously differentiable on [1, 1+z_max]",
                "exact real arithmetic in the theorems (rounding not modelled)",
                "instances are built with object.__new__ and the constructor's own attribute assignments (the covariance files of this "
@@ -36,10 +50,14 @@ ASSUMPTIONS = ["1+z >= 1 and NaN-free finite redshifts", "H^2 positive, twice co
                "the run-time oracle's zeta_j / zeta are not interval-arithmetic enclosures of max|G''|: closed-form G'' sampled on a mesh of 9 "
                "points per grid interval (spacing <= 0.005 on the shipped grid) with a 5% safety factor; the run-time bound is the theorem's "
                "expression evaluated with these zeta on the grid the real code built (data_x) plus the slack 1e-12*|I| + 2*(quad's own error estimate)",
-               "sympy.integrate is tested, not proved"]
+               "sympy.integrate is tested, not proved: AntiderivativeContract is checked at 16 points per (function, parameter vector), tolerance "
+               "1e-9 relative (sympy.diff) / 1e-5 relative + rounding (central differences), not for all x and all parameter values",
+               "analytic path vs quad: 1e-9 relative + 2 quad error estimates + 16 ulps of |F(1+z)| + |F(1)| (cancellation in the subtraction is "
+               "floating-point rounding, outside the property)"]
 # tables whose committed version may stand in as a hand-written model when the translator cannot read the source;
 # value = the correspondence that then ties it to the code (common.prove / common.decide)
-FALLBACK = {'Panth': 'real get_pred grid, mask, cumulative sums and mu vs the Lean model (bit patterns)'}
+FALLBACK = {'Panth': 'real get_pred grid, mask, cumulative sums and mu vs the Lean model (bit patterns); real run_sympify antiderivatives vs '
+                     'the derivative contract and the analytic path vs quad'}
 MODELLED = ["likelihood.py:PanthLikelihood.get_pred", "likelihood.py:PanthLikelihood.clear_data",
             "likelihood.py:PanthLikelihood.run_sympify", "likelihood.py:PanthLikelihood.__init__"]
 
@@ -722,7 +740,7 @@ def check_case(ctx, fam_index, params, zp1, zp1_b=None, record=True):
                 if ref[name][i] > 0:
                     st["max_ratio"][name] = max(st["max_ratio"][name], round(over / ref[name][i], 4))
             if d <= tol and B[i] > 0:
-                ratio = max(ratio, d / B[i])
+                ratio = max(ratio, max(0.0, d - slack) / B[i])
         if worst is not None:
             _, i, dl, Ii, tol = worst
             fail(tag + "trapz-vs-quad",
@@ -1007,13 +1025,13 @@ def run(ctx):
     with LineCov([P.get_pred, P.clear_data, P.run_sympify]) as cov:
         for name, fn, size in (("constants", _corr_shipped, None), ("linspace", _corr_linspace, 3000 if deep else 400),
                                ("cumulative_trapezoid", _corr_cumtrapz, 600 if deep else 80), ("get_pred", _corr_run, 1500 if deep else 160),
-                               ("G''_vs_sympy", _corr_g2, 40 if deep else 8), ("antiderivative_contract", _contract, 6 if deep else 2)):
+                               ("G''_vs_sympy", _corr_g2, 40 if deep else 8), ("antiderivative_contract", _contract, 8 if deep else 3)):
             try:
                 res[name] = fn(ctx) if size is None else fn(ctx, size)
             except Exception as e:
                 ctx.disagree("corr:%s" % name, "correspondence could not run: %r" % (e,))
                 res[name] = (0, 1)
-        _oracle_signed(ctx, 4 if deep else 1)
+        _oracle_signed(ctx, 6 if deep else 2)
         _oracle(ctx, 1500 if deep else 150)
     ctx.extra["anchored_line_coverage"] = cov.report()
     ctx.extra["corr_obligations"] = len(res)
@@ -1021,7 +1039,8 @@ def run(ctx):
     ctx.extra["correspondence"] = {k: dict(ops=v[0], mismatches=v[1]) for k, v in res.items()}
     ctx.extra["exhaustive"] = False
     ctx.extra["not_proved"] = ["floating-point rounding of the trapezoid sums (the theorems are over the reals)",
-                               "sympy.integrate on the analytic path (tested against the numerical path)"]
+                               "sympy.integrate on the analytic path: its contract is the hypothesis ESR.C19.AntiderivativeContract, checked at run time "
+                               "(extra.antiderivative_contract), and the path is tested against the numerical path and quad"]
     qb = ctx.extra.get("quadrature_bound")
     if qb:
         ctx.extra["max_error_over_theorem_bound"] = max(qb["max_ratio"].values())
